@@ -3,4 +3,4 @@ CONSTANTS Q = 2 NClient = 2 NServer = 2 Calls = {k1, k2, k3} CloseClosesChan = F
 SPECIFICATION Spec
 CHECK_DEADLOCK FALSE
 INVARIANTS C2S S2C NoPanic Statuses
-PROPERTIES Answered DrainThenClosed
+PROPERTIES Answered DrainThenClosed ImplementsObs
